@@ -45,22 +45,30 @@ EXPLANATION = (
 )
 BOUNDS = {
     "quick": "conversions x 5 entry points x {valid plain/prefixed/affine/compound/table/EM/identity, dimension mismatch, unknown unit, "
-             "unparsable unit}; base conversions x 13 entry points x {plain, affine, compound, table, EM, irreducible x2, unknown "
+             "unparsable unit}; base conversions x 13 entry points x {plain, affine, compound, table, EM x2, irreducible x2, unknown "
              "system}; 22 equivalence routes x 4 entry points incl. invalid equivalence (source/target/name), bad kwarg, unknown "
-             "unit, offset unit; 14 operators + 7 augmented assignments x operand variants {same unit, other scale, table pair, "
-             "other dimension, quantity, bare number/array on either side, offset guards, K/degC guard, exponent kinds incl. "
-             "non-dimensionless}; 30 ufuncs x out in {none, fresh, other unit, bare, wrong shape, alias of input 0/1}; reduce/"
-             "accumulate; 16 reductions with/without out=; 40 array-function call forms; item assignment 4 index kinds x 10 value "
-             "kinds; 36 Unit operations x 6 unit pairs; copies followed by in-place edits of the copy; integer-buffer routes on "
-             "int8..int64/uint8 with symbolic scales on the failing routes. Operands are 2-element slices of 4-element parents "
-             "(2x2 slices of 4x2 parents where a matrix is needed) or scalars taken from such parents. The quick tier runs a "
-             "fixed half of the out=/operand-variant combinations",
-    "thorough": "the same catalogue, every op x variant x out= form, array and scalar operands",
+             "unit, offset unit; 12 binary operators + 6 augmented assignments + ** (5 forms x 12 exponent kinds) + 3 unary x "
+             "operand variants {same unit, other scale, table pair, other dimension, quantity, bare number/array on either side, "
+             "same object twice, offset guards, K/degC guard, logarithmic unit, non-dimensionless exponent}; 45 ufunc configurations x "
+             "out in {none, fresh, other unit, bare ndarray, wrong shape, alias of input 0, alias of input 1}; reduce/accumulate; 17 "
+             "reductions with/without out=; 49 array-function call forms without out=, 17 with out= x 5 out forms, 14 in-place ones "
+             "(sort, copyto, put, putmask, place, fill_diagonal, fill); item assignment 5 index kinds x 12 value kinds + 7 kinds of "
+             "values a float buffer refuses; 46 Unit operations x 8 unit pairs; 11 copy routes each followed by in-place edits of "
+             "the copy; integer buffers int8/int32/uint16 (convert_to_*, out=, augmented assignment, copies) with symbolic scales on "
+             "the routes that fail before arithmetic; float-only forms (x**2 / x**0.5 / x**-1 fast paths, modf/divmod/frexp/copysign/"
+             "isfinite with out= tuples) on concrete doubles with symbolic unit scales. Operands are 2-element slices of 4-element "
+             "parents (2x2 slices of 4x2 parents where a matrix is needed). The quick tier drops the bare/other-unit/wrong-shape out= "
+             "forms for most ufuncs and half of the copy-then-edit and Unit-pair combinations",
+    "thorough": "the same catalogue with every op x variant x out= form, array operands and scalar operands (element 1 of a 4-element "
+                "parent), integer buffers int8/uint8/int16/uint16/int32/int64",
 }
 OUTSIDE = ("IEEE rounding/overflow/nan (A1); complex payloads; in-place calls whose out= is a second view object over memory of "
-           "an input (only out-is-the-input aliasing is enumerated); dask/astropy/pint/h5py bridges; the integer-buffer routes "
-           "run on concrete integers (the buffer content is not symbolic there, the unit scales are, where the call fails before "
-           "arithmetic); what a successful in-place dtype change does to the integer parent under the target (C16)")
+           "an input (only out-is-the-input aliasing is enumerated); dask/astropy/pint/h5py bridges; the integer-buffer and float-only "
+           "routes run on concrete numbers (the buffer content is not symbolic there, the unit scales/offsets are); what a successful "
+           "in-place dtype change does to the integer parent under the target (C16) and float16 precision of 2-byte integers (C17); "
+           "ndarray.std and the divmod operator on symbolic payloads (NumPy has no object-dtype route for them: std is not run, divmod "
+           "runs on concrete doubles); whether a call SHOULD have been refused (C01) or returns the right numbers (C03/C04/C06) - only "
+           "the frame and the in-place/copy agreement are claimed here")
 CONFORM = {"quick": 80, "thorough": 240}
 
 # harness unit rows: name -> (attribute of unyt.dimensions, has symbolic offset)
@@ -659,6 +667,7 @@ UFUNCS = [
     
     ("square@offset", 1, 1, "xta", None, {}, "offset temperature"), ("sqrt@log", 1, 1, "Np", None, dict(pos=True), "logarithmic unit"),
     ("square@log", 1, 1, "Np", None, {}, "logarithmic unit"), ("negative@offset", 1, 1, "xta", None, {}, "offset temperature"),
+    ("sqrt@offset", 1, 1, "xta", None, dict(pos=True), "offset temperature"), ("reciprocal@offset", 1, 1, "xta", None, dict(nonzero=True), "offset temperature"),
     ("add", 2, 1, "xa", "xb", {}, None), ("subtract", 2, 1, "xa", "xb", {}, None), ("multiply", 2, 1, "xa", "xs", {}, None),
     ("divide", 2, 1, "m", "cm", dict(nonzero=True), None), ("maximum", 2, 1, "xa", "xb", {}, None), ("hypot", 2, 1, "xa", "xa", {}, None),
     ("arctan2", 2, 1, "xa", "xb", {}, None), ("floor_divide", 2, 1, "m", "cm", dict(nonzero=True), None),
@@ -932,6 +941,8 @@ def setitem_case(tag, ua, vspec, fault, iname):
             v = E.operand("v", vspec, (2,))
         if isinstance(v, np.ndarray) and v.shape == (2,) and iname in ("int", "neg"):
             v = v[0]  # one number for a single slot
+        elif isinstance(v, np.ndarray) and v.shape == (2,) and iname == "mask":
+            v = v[:1]  # one True slot
         old = list(elements(a))
         au = a.units
 
@@ -1151,6 +1162,23 @@ def float_ufunc_case(name, arity, nout, ua, ub, fault, outform):
     return Case(_cid("floatufunc", name, f"out={outform}", fault or "valid"), h)
 
 
+def float_pow_case(form, unit, p):
+    """NumPy rewrites `x ** 2`, `x ** 0.5`, `x ** -1` on FLOAT buffers into square/sqrt/reciprocal (a fast path an object payload
+    does not take): these forms run on concrete doubles with symbolic unit scale/offset"""
+    def h(ctx):
+        E = Env(ctx)
+        E.observe_values = False
+        a = E.concrete("a", [1.5, 2.25], unit)
+        if form == "pow":
+            E.copying(lambda: a ** p)
+        elif form == "ipow":
+            E.inplace("a", lambda: operator.ipow(a, p), lambda: a ** p)
+        else:
+            E.concrete("o", [0.0, 0.0], "xs")
+            E.inplace("o", lambda: np.power(a, p, out=E.tracked["o"]), lambda: np.power(a, p))
+    return Case(_cid("floatpow", form, unit, f"p={p}"), h)
+
+
 TYPED_SETVALS = {"string": "xnope", "list_of_str": ["p", "q"], "too_long": [1.0, 2.0, 3.0], "complex": 1j,
                  "quantity_dim": ("q", "xs"), "array_dim": ("a", "xs"), "dict": {}}
 
@@ -1214,7 +1242,7 @@ def cases(tier, mods):
             for sh in shapes:
                 out.append(op_case(op, tag, sa, sb, fault, sh))
             aug = "i" + op
-            if aug in AUGOPS and not sa.startswith(("num", "bare")):
+            if aug in AUGOPS and not sa.startswith(("num", "bare", "q:")):
                 for sh in shapes:
                     out.append(op_case(aug, tag, sa, sb, fault, sh))
     for op in ["add", "sub", "mul", "truediv", "eq", "iadd", "isub", "imul", "itruediv"]:
@@ -1310,6 +1338,10 @@ def cases(tier, mods):
         out.append(int_copying_case(dt, "to_equivalent", lambda q: q.to_equivalent("keV", "thermal"), "K"))
         out.append(int_copying_case(dt, "add", lambda q: q + q, "xa"))
         out.append(int_copying_case(dt, "copy", lambda q: q.copy(), "xa"))
+    for unit in ["xa", "xta", "xd"]:
+        for pw in [2, 0.5, -1, 1, 3, 0]:
+            for form in ["pow", "ipow", "np.power(out=o)"]:
+                out.append(float_pow_case(form, unit, pw))
     # ---- ufuncs NumPy has no object loop for (multi-output modf/divmod, copysign, isfinite): concrete doubles, symbolic unit scales
     for (name, arity, nout, ua, ub, fault) in FLOAT_UFUNCS:
         for of in ["none", "fresh", "otherunit", "bareout", "wrongshape", "alias0"]:
